@@ -273,3 +273,29 @@ def check_cached_returns(ctx, rule: str, def_relpaths, use_relpaths) -> int:
                           "argument returns the modified container (e.g. parse_bnf(text) after ISLaSolver(text, ...) added a rule to its grammar)", "results of memoised functions are copied before they are modified")
     ctx.inventory[f"{rule}_cached_mutable_functions"] = sorted(cached)
     return n
+
+
+def check_cached_grammar_projection(ctx, rule: str, relpaths) -> int:
+    """A module-level lru_cache'd helper called from a function that has a grammar / graph parameter with arguments that are only PROJECTIONS of that parameter
+    (graph.get_node(x), grammar[x], ...) is keyed without the grammar: grammar-graph nodes and symbols compare by name, so answers leak from one grammar to the next."""
+    n = 0
+    for rel in relpaths:
+        m = ctx.repo.module(rel, rule)
+        cached = {fn.name: fn for q, fn in cached_functions(m) if "." not in q}
+        if not cached:
+            continue
+        for q, fn in m.functions():
+            if not isinstance(fn, ast.FunctionDef) or fn.name in cached:
+                continue
+            gparams = [a.arg for a in fn.args.args if a.arg in ("graph", "grammar", "canonical_grammar")]
+            if not gparams:
+                continue
+            for c in [x for x in walk_local(fn) if isinstance(x, ast.Call) and isinstance(x.func, ast.Name) and x.func.id in cached]:
+                n += 1
+                whole = any(isinstance(a, ast.Name) and a.id in gparams for a in c.args) or any(isinstance(k.value, ast.Name) and k.value.id in gparams for k in c.keywords)
+                proj = [a for a in c.args if any(isinstance(y, ast.Name) and y.id in gparams for y in ast.walk(a)) and not (isinstance(a, ast.Name) and a.id in gparams)]
+                ctx.check(whole or not proj, rule, f"{rel}:{q}", f"{c.func.id}(...) keyed by the grammar it was asked about", site(c),
+                          f"`{c.func.id}` is memoised per process (lru_cache) and is called with `{src(proj[0])[:40] if proj else ''}`, a projection of `{gparams[0]}`, but not with `{gparams[0]}` itself: "
+                          "graph nodes / symbols compare by name, so an answer computed for one grammar is returned for another grammar with the same nonterminal names "
+                          "(count completion then trusts a stale 'cannot reach the needle')", "grammar / graph is part of the cached function's arguments")
+    return n
